@@ -65,6 +65,7 @@ func cmdVerify(args []string) {
 	keep := fs.Bool("keep", false, "keep SMT files")
 	out := fs.String("out", "/tmp/gocv-smt", "SMT output directory")
 	verbose := fs.Bool("v", false, "print every obligation")
+	obFilter := fs.String("ob", "", "only solve obligations whose name contains this")
 	fs.Parse(args)
 	keepSMT = *keep
 	t0 := time.Now()
@@ -104,6 +105,15 @@ func cmdVerify(args []string) {
 		t1 := time.Now()
 		res := VerifyFunction(P, C, fn, fc, cfg)
 		gen := time.Since(t1).Seconds()
+		if *obFilter != "" {
+			var keepObs []*Obligation
+			for _, o := range res.Obs {
+				if strings.Contains(o.Name, *obFilter) {
+					keepObs = append(keepObs, o)
+				}
+			}
+			res.Obs = keepObs
+		}
 		SolveAll(res.Obs, *out, *timeout, *workers)
 		nok := 0
 		for _, o := range res.Obs {
